@@ -833,10 +833,149 @@ pub fn run(a: &Args, prop: &'static str) -> i32 {
         }
     }
     ctx.extra.insert("hook_points_enumerated".into(), json!(points_seen));
+    if prop == "C40" {
+        catalog_round_trip(&mut ctx, seed, quick);
+    }
     let nskipped = skipped.load(Ordering::SeqCst) as u64;
     ctx.count("histories_skipped_wall_budget", nskipped);
     ctx.exhaustive = Some(!quick && nskipped == 0);
     ctx.assumptions.push("crash instants are the hook points (plus real SIGKILLs at sampled hook points); the power-loss image keeps directory entries and WAL truncation as immediately durable and every file's content/length as of its last successful sync".into());
     ctx.assumptions.push("statements TurDB rejected are treated as having no effect (C06 judges that separately); a history whose model replay hits an unsupported statement is dropped".into());
     ctx.finish()
+}
+
+
+// ------------------------------------------------------------------------------------------------
+// C40, first half of the statement: saving and reloading the catalog yields an identical catalog
+// ------------------------------------------------------------------------------------------------
+
+/// canonical rendering of everything the statement names: schemas (also empty ones), tables with ids,
+/// columns with type / constraints / default / max length, primary key, indexes, toast ids
+fn render_catalog(cat: &turdb::schema::Catalog) -> Vec<String> {
+    let mut out = vec![];
+    let mut schemas: Vec<_> = cat.schemas().iter().collect();
+    schemas.sort_by(|a, b| a.0.cmp(b.0));
+    for (sname, s) in schemas {
+        out.push(format!("schema {}", sname));
+        let mut tables: Vec<_> = s.tables().iter().collect();
+        tables.sort_by(|a, b| a.0.cmp(b.0));
+        for (tname, t) in tables {
+            out.push(format!("  table {}.{} id={} toast={:?} pk={:?}", sname, tname, t.id(), t.toast_id(), t.primary_key()));
+            for c in t.columns() {
+                out.push(format!("    column {:?}", c));
+            }
+            let mut idx: Vec<String> = t.indexes().iter().map(|i| format!("    index {:?}", i)).collect();
+            idx.sort();
+            out.extend(idx);
+        }
+    }
+    out
+}
+
+fn catalog_round_trip(ctx: &mut Ctx, seed: u64, quick: bool) {
+    use turdb::records::DataType;
+    use turdb::schema::persistence::CatalogPersistence;
+    use turdb::schema::{Catalog, ColumnDef, Constraint, IndexDef, IndexType, ReferentialAction, TableDef};
+    const TYPES: [DataType; 20] = [
+        DataType::Bool, DataType::Int2, DataType::Int4, DataType::Int8, DataType::Float4, DataType::Float8, DataType::Date, DataType::Time, DataType::Timestamp,
+        DataType::TimestampTz, DataType::Uuid, DataType::Text, DataType::Blob, DataType::Vector, DataType::Jsonb, DataType::Varchar, DataType::Char, DataType::Decimal,
+        DataType::Interval, DataType::Inet4,
+    ];
+    const DEFAULTS: [&str; 10] = ["", "0", "-1", "7", "1.5", "abc", "it''s", "  ", "NULL", "2024-02-29"];
+    let mut rng = Rng::derive(seed, 4040);
+    let n = if quick { 400 } else { 6000 };
+    let mut cases = 0u64;
+    for ci in 0..n {
+        let mut cat = Catalog::new();
+        let root = cat.default_schema().to_string();
+        let mut schemas = vec![root.clone()];
+        for si in 0..rng.below(3) {
+            let name = format!("s{}", si);
+            if cat.create_schema(name.clone()).is_ok() {
+                schemas.push(name);
+            }
+        }
+        let mut next_id = 1u64;
+        let mut feats: BTreeSet<&'static str> = BTreeSet::new();
+        for sname in schemas.clone() {
+            // a user schema may stay empty
+            let nt = if sname == root { rng.usize(0, 3) } else { rng.usize(0, 2) };
+            if nt == 0 && sname != root {
+                feats.insert("empty_user_schema");
+            }
+            for t in 0..nt {
+                let nc = rng.usize(1, 5);
+                let mut cols = vec![];
+                for c in 0..nc {
+                    let dt = *rng.pick(&TYPES);
+                    let mut col = ColumnDef::new(format!("c{}", c), dt);
+                    for _ in 0..rng.below(3) {
+                        col = col.with_constraint(match rng.below(6) {
+                            0 => Constraint::NotNull,
+                            1 => Constraint::PrimaryKey,
+                            2 => Constraint::Unique,
+                            3 => Constraint::AutoIncrement,
+                            4 => Constraint::Check(format!("c{} > {}", c, rng.below(10))),
+                            _ => Constraint::ForeignKey { table: "t0".into(), column: "c0".into(), on_delete: if rng.chance(1, 2) { Some(ReferentialAction::Cascade) } else { None }, on_update: if rng.chance(1, 2) { None } else { Some(ReferentialAction::SetNull) } },
+                        });
+                    }
+                    if rng.chance(2, 5) {
+                        let d = *rng.pick(&DEFAULTS);
+                        if d.is_empty() {
+                            feats.insert("empty_string_default");
+                        }
+                        col = col.with_default(d.to_string());
+                    }
+                    if rng.chance(1, 3) {
+                        col = col.with_max_length(rng.below(300) as u32);
+                    }
+                    cols.push(col);
+                }
+                let mut td = TableDef::new(next_id, format!("t{}", t), cols);
+                next_id += 1 + rng.below(3);
+                if rng.chance(1, 2) {
+                    td = td.with_primary_key(vec!["c0".to_string()]);
+                }
+                for ix in 0..rng.below(3) {
+                    td = td.with_index(IndexDef::new(format!("ix{}_{}", t, ix), vec!["c0".to_string()], rng.chance(1, 2), if rng.chance(1, 5) { IndexType::Hnsw } else { IndexType::BTree }));
+                }
+                if rng.chance(1, 3) {
+                    td = td.with_toast_id(1000 + next_id);
+                }
+                if let Some(s) = cat.get_schema_mut(&sname) {
+                    s.add_table(td);
+                }
+            }
+        }
+        let before = render_catalog(&cat);
+        let r = catch(|| -> Result<Vec<String>, String> {
+            let bytes = CatalogPersistence::serialize(&cat).map_err(|e| format!("serialize: {:#}", e))?;
+            let mut back = Catalog::new();
+            CatalogPersistence::deserialize(&bytes, &mut back).map_err(|e| format!("deserialize: {:#}", e))?;
+            Ok(render_catalog(&back))
+        });
+        ctx.eval();
+        cases += 1;
+        ctx.nontrivial(fnv(before.join("\n").as_bytes()) ^ 0xC40);
+        let fl: Vec<&str> = feats.iter().copied().collect();
+        match r {
+            Ok(Ok(after)) if after == before => {}
+            Ok(Ok(after)) => {
+                // first differing line names what was lost or changed
+                let what = before.iter().zip(after.iter()).find(|(a, b)| a != b).map(|(a, _)| a.trim().split_whitespace().next().unwrap_or("line").to_string()).unwrap_or_else(|| if after.len() < before.len() { before[after.len()].trim().split_whitespace().next().unwrap_or("line").to_string() } else { "extra".into() });
+                let cause = if fl.is_empty() { "plain".to_string() } else { fl.join("+") };
+                ctx.violation("catalog_round_trip", &format!("C40/catalog_round_trip/{}_differs/{}", what, cause), json!({"case": ci, "before": before, "after": after}));
+            }
+            Ok(Err(e)) => {
+                ctx.violation("catalog_round_trip", &format!("C40/catalog_round_trip/error:{}", super::dmlengine::err_class(&e)), json!({"case": ci, "before": before, "error": e}));
+            }
+            Err(p) => {
+                ctx.violation("catalog_round_trip", &format!("C40/catalog_round_trip/panic@{}", crate::report::stable_site(&crate::report::panic_site(&p).replace("/repo/", ""))), json!({"case": ci, "before": before, "panic": p}));
+            }
+        }
+        if ci == 0 {
+            ctx.sample(json!({"catalog_round_trip_case": before}));
+        }
+    }
+    ctx.count("catalog_round_trip_cases", cases);
 }
